@@ -23,9 +23,9 @@ RULE = (
     "non-zero; impulse; version 0 changed by a relative 2^-24), set_prms := one of 4 scalar versions (each parameter "
     "changed alone and both), a per-label FlodymArray version or full-dimensional FlodymArrays, in-place edit of the "
     "arrays that were handed to set_prms, compute, read sf, read pdf} for every (stock class/solver incl. the flow-driven "
-    "stock) x (lifetime class) x (unit and uneven time grid) x (extra dims: p with 2 items, none, p with a single item), from the blank state (nothing set) and the ready "
+    "stock) x (lifetime class) x (unit and uneven time grid) x (extra dims: p with 2 items, none, p with a single item) x (1 and 3 quadrature points), drivers set entry by entry, through a[...] = ndarray and through set_values, from the blank state (nothing set) and the ready "
     "state (driver 0, parameters 0); and over {parameter := version, system.compute()} for systems built from "
-    "definitions. State key = digest of EVERY array reachable from the stock object (public and private "
+    "definitions that hold TWO stocks of one class and dims with different lifetimes, each compared with a standalone stock. State key = digest of EVERY array reachable from the stock object (public and private "
     "attributes alike, so caches are part of the state) + input versions. Non-trivial transition = a compute "
     "(compared with a fresh object) or a transition into a new state."
 )
@@ -44,6 +44,7 @@ LEVEL_NOTE = "Differential oracle (history vs fresh); exact state key over the o
 GRIDS = {"unit": (2000, 2001, 2002, 2003), "uneven": (2000, 2002, 2007, 2008)}
 EXTRA = [("p", 2)]  # default; units also run time-only dims and a single-item dimension (see EXTRAS)
 EXTRAS = {"p2": [("p", 2)], "none": [], "p1": [("p", 1)]}
+NPTS = 1  # n_pts_per_interval of the lifetime models of the current unit (1 or 3)
 PRM_VERSIONS = {
     "NormalLifetime": [dict(mean=3.0, std=1.0), dict(mean=1.5, std=1.0), dict(mean=3.0, std=0.5), dict(mean=1.5, std=0.5)],
     "FoldedNormalLifetime": [dict(mean=3.0, std=1.0), dict(mean=1.5, std=1.0), dict(mean=3.0, std=2.0), dict(mean=1.5, std=2.0)],
@@ -105,7 +106,7 @@ def make_obj(kind, dist, grid, drv, prm, drv2=None):
         if drv2 is not None:
             dsm_impl.fill(s.outflow, dsm_impl.driver_series(("pos2", "inc")[drv2], n, EXTRA), EXTRA)
         return s
-    lm = getattr(flodym, dist)(dims=dims)
+    lm = getattr(flodym, dist)(dims=dims, n_pts_per_interval=NPTS)
     if prm is not None:
         lm.set_prms(**prm_kwargs(dist, prm, dims))
     if kind == "inflow":
@@ -181,7 +182,18 @@ def apply_op(st, op, check):
     if op["op"] == "drv":
         key = "stock" if st.kind.startswith("stock") else "inflow"
         name = DRV["stock" if key == "stock" else ("simple" if st.kind == "simple" else "inflow")][op["v"]]
-        dsm_impl.fill(getattr(s, key), drv_series(name, n, EXTRA), EXTRA)
+        arr = getattr(s, key)
+        route = op["v"] % 3
+        if route == 0:  # entry by entry into the existing buffer
+            dsm_impl.fill(arr, drv_series(name, n, EXTRA), EXTRA)
+        else:  # through the public whole-array routes, which may install a new buffer
+            nd = np.zeros(tuple(arr.dims.shape))
+            for (t, lab), v in drv_series(name, n, EXTRA).items():
+                nd[(t,) + lab] = v
+            if route == 1:
+                arr[...] = nd
+            else:
+                arr.set_values(nd)
         st.drv = op["v"]
         return "driver-set", None
     if op["op"] == "drv2":
@@ -270,19 +282,23 @@ def make_system(dist, grid, solver_kind):
         dimensions=[DimensionDefinition(name="Time", letter="t", dtype=int), DimensionDefinition(name="Product", letter="p", dtype=str)],
         processes=["sysenv", "use"],
         flows=[FlowDefinition(from_process="sysenv", to_process="use", dim_letters=("t", "p")), FlowDefinition(from_process="use", to_process="sysenv", dim_letters=("t", "p"))],
-        stocks=[StockDefinition(**sd)],
-        parameters=[ParameterDefinition(name="driver", dim_letters=("t", "p"))] + [ParameterDefinition(name=nm, dim_letters=("p",)) for nm in names],
+        stocks=[StockDefinition(**sd), StockDefinition(**dict(sd, name="use2"))],
+        parameters=[ParameterDefinition(name="driver", dim_letters=("t", "p"))] + [ParameterDefinition(name=nm, dim_letters=("p",)) for nm in names] + [ParameterDefinition(name=nm + "_2", dim_letters=("p",)) for nm in names],
     )
 
     class Sys(flodym.MFASystem):
         def compute(self):
-            st = self.stocks["use"]
+            st, st2 = self.stocks["use"], self.stocks["use2"]
+            # all parameters are set first, then everything is computed (two stocks of one class)
             st.lifetime_model.set_prms(**{nm: self.parameters[nm] for nm in names})
-            if solver_kind == "inflow":
-                st.inflow[...] = self.parameters["driver"]
-            else:
-                st.stock[...] = self.parameters["driver"]
+            st2.lifetime_model.set_prms(**{nm: self.parameters[nm + "_2"] for nm in names})
+            for x in (st, st2):
+                if solver_kind == "inflow":
+                    x.inflow[...] = self.parameters["driver"]
+                else:
+                    x.stock[...] = self.parameters["driver"]
             st.compute()
+            st2.compute()
             self.flows["sysenv => use"][...] = st.inflow
             self.flows["use => sysenv"][...] = st.outflow
 
@@ -296,6 +312,7 @@ def sys_set(mfa, dist, solver_kind, drv, prm, grid):
     base = PRM_VERSIONS[dist][prm]
     for k, nm in enumerate(base):
         mfa.parameters[nm].values[...] = [base[nm], base[nm] + (0.25 if k == 0 else 0.125)]
+        mfa.parameters[nm + "_2"].values[...] = [base[nm] + 0.5, base[nm] + 0.75]
 
 
 def build_sys_state(dist, grid, solver_kind):
@@ -343,6 +360,25 @@ def apply_sys_op(st, op, check):
     for nm in want:
         if not np.allclose(got[nm], want[nm], rtol=0, atol=1e-12 * scale, equal_nan=True):
             return fail("stale", f"{nm} differs from a freshly built system with the same parameters (driver v{st.drv}, parameters v{st.prm})")
+    # each stock of the system against a STANDALONE stock built directly from its own parameters
+    import flodym
+
+    names = list(PRM_VERSIONS[st.dist][0])
+    for sname, suffix in (("use", ""), ("use2", "_2")):
+        sys_stock = mfa.stocks[sname]
+        lm = getattr(flodym, st.dist)(dims=sys_stock.dims)
+        lm.set_prms(**{nm: mfa.parameters[nm + suffix] for nm in names})
+        if st.solver_kind == "inflow":
+            alone = flodym.InflowDrivenDSM(dims=sys_stock.dims, lifetime_model=lm)
+            alone.inflow[...] = mfa.parameters["driver"]
+        else:
+            alone = flodym.StockDrivenDSM(dims=sys_stock.dims, lifetime_model=lm, solver=st.solver_kind.split("-")[1])
+            alone.stock[...] = mfa.parameters["driver"]
+        alone.compute()
+        a, b = results(sys_stock, "dsm"), results(alone, "dsm")
+        for nm in b:
+            if not np.allclose(a[nm], b[nm], rtol=0, atol=1e-12 * scale, equal_nan=True):
+                return fail("stale", f"{nm} of stock {sname!r} inside the system differs from a standalone stock with the same driver and that stock's own parameters")
     return "compute-equals-fresh", None
 
 
@@ -378,7 +414,9 @@ def units(tier, seed):
                 for ex in extras:
                     if ex != "p2" and start == "blank":
                         continue
-                    out.append(dict(mode="stock", kind=kind, dist=dist, grid=gname, start=start, depth=depth if ex == "p2" else min(depth, 4), extra=ex))
+                    out.append(dict(mode="stock", kind=kind, dist=dist, grid=gname, start=start, depth=depth if ex == "p2" else min(depth, 4), extra=ex, npts=1))
+                    if kind != "simple" and start == "ready" and ex == "p2" and (tier == "thorough" or (ci + gi) % 2 == 0):
+                        out.append(dict(mode="stock", kind=kind, dist=dist, grid=gname, start=start, depth=min(depth, 4), extra=ex, npts=3))
     sys_combos = [("inflow", "NormalLifetime"), ("stock-lapack", "WeibullLifetime")] if tier == "quick" else [(k, d) for k in dsm_impl.KINDS for d in PRM_VERSIONS if d != "FixedLifetime"]
     for sk, dist in sys_combos:
         for gname in GRIDS:
@@ -387,8 +425,9 @@ def units(tier, seed):
 
 
 def run_unit(u):
-    global EXTRA
+    global EXTRA, NPTS
     EXTRA = EXTRAS[u.get("extra", "p2")]
+    NPTS = u.get("npts", 1)
     grid = GRIDS[u["grid"]]
     if u["mode"] == "stock":
         ops = ops_for(u["kind"], u["dist"])
@@ -410,9 +449,10 @@ def _short(o):
 
 
 def replay(case):
-    global EXTRA
+    global EXTRA, NPTS
     u = case["unit"]
     EXTRA = EXTRAS[u.get("extra", "p2")]
+    NPTS = u.get("npts", 1)
     grid = GRIDS[u["grid"]]
     if u["mode"] == "stock":
         st = build_state(u["kind"], u["dist"], grid, u["start"])
